@@ -164,6 +164,9 @@ func (p Proxy) ServeHTTP(w http.ResponseWriter, r *http.Request) (int, error) {
 	if requiresBuffering {
 		body, err := newBufferedBody(outreq.Body)
 		if err != nil {
+			if errors.Is(err, httpserver.ErrMaxBytesExceeded) {
+				return http.StatusRequestEntityTooLarge, err
+			}
 			return http.StatusBadRequest, errors.New("failed to read downstream request body")
 		}
 		if body != nil {
